@@ -75,6 +75,15 @@ func RunCase(goderive string, c *Case, v Variant, dir string) (*Obs, error) {
 	if err := os.WriteFile(filepath.Join(dir, "go.mod"), []byte("module t\n\ngo 1.24\n"), 0o644); err != nil {
 		return nil, err
 	}
+	for rel, content := range c.Extra {
+		fp := filepath.Join(dir, rel)
+		if err := os.MkdirAll(filepath.Dir(fp), 0o755); err != nil {
+			return nil, err
+		}
+		if err := os.WriteFile(fp, []byte(content), 0o644); err != nil {
+			return nil, err
+		}
+	}
 	srcs := c.Sources()
 	for n, s := range srcs {
 		if err := os.WriteFile(filepath.Join(pdir, n), []byte(s), 0o644); err != nil {
@@ -161,7 +170,27 @@ func readBack(obs *Obs, c *Case, files []FileSpec, pdir string) {
 	}
 	info := &types.Info{Uses: map[*ast.Ident]types.Object{}, Types: map[ast.Expr]types.TypeAndValue{}}
 	var firstErr error
-	conf := types.Config{Importer: importer.ForCompiler(fset, "source", nil), Error: func(err error) {
+	// module-local imported packages (Case.Extra) are parsed and checked here; everything else from source
+	local := localImporter{pkgs: map[string]*types.Package{}, fallback: importer.ForCompiler(fset, "source", nil)}
+	extraDirs := map[string]bool{}
+	for rel := range c.Extra {
+		extraDirs[filepath.Dir(rel)] = true
+	}
+	for d := range extraDirs {
+		var fs []*ast.File
+		ents, _ := os.ReadDir(filepath.Join(filepath.Dir(pdir), d))
+		for _, e := range ents {
+			if strings.HasSuffix(e.Name(), ".go") {
+				if f, err := parser.ParseFile(fset, filepath.Join(filepath.Dir(pdir), d, e.Name()), nil, 0); err == nil {
+					fs = append(fs, f)
+				}
+			}
+		}
+		if p, err := (&types.Config{}).Check("t/"+filepath.ToSlash(d), fset, fs, nil); err == nil {
+			local.pkgs["t/"+filepath.ToSlash(d)] = p
+		}
+	}
+	conf := types.Config{Importer: local, Error: func(err error) {
 		if firstErr == nil {
 			firstErr = err
 		}
@@ -234,6 +263,18 @@ func readBack(obs *Obs, c *Case, files []FileSpec, pdir string) {
 			obs.Canon = canonical(fset, df)
 		}
 	}
+}
+
+type localImporter struct {
+	pkgs     map[string]*types.Package
+	fallback types.Importer
+}
+
+func (l localImporter) Import(path string) (*types.Package, error) {
+	if p, ok := l.pkgs[path]; ok {
+		return p, nil
+	}
+	return l.fallback.Import(path)
 }
 
 func exprString(fset *token.FileSet, e ast.Expr) string {
